@@ -138,8 +138,14 @@ class Exprs:
             b = self.of_operand(r["b"], depth + 1)
             op = r["op"]
             la, lb = lin(a), lin(b)
-            if op in ("Add", "AddWithOverflow", "AddUnchecked") and la and lb and (la[0] is None or lb[0] is None):
-                res = mk_add(a, lb[1]) if lb[0] is None else mk_add(b, la[1])
+            if op in ("Add", "AddWithOverflow", "AddUnchecked") and la and lb:
+                if la[0] is None or lb[0] is None:
+                    res = mk_add(a, lb[1]) if lb[0] is None else mk_add(b, la[1])
+                else:
+                    # the sum of two variables is an atom of its own (canonical operand order), so that
+                    # `x + y` computed twice denotes one term
+                    atom = ("sum", tuple(sorted((la[0], lb[0]), key=repr)))
+                    res = mk_add(atom, la[1] + lb[1])
                 return ("tuple", (res, C(False))) if op == "AddWithOverflow" else res
             if op in ("Sub", "SubWithOverflow", "SubUnchecked") and la and lb and lb[0] is None:
                 res = mk_add(a, -lb[1])
@@ -362,3 +368,61 @@ def prove_index_call(prog, fn, b, t):
     from .sympath import show
     return ok, "%s %s from %s" % ("follows" if ok else "does not follow", show(goal),
                                   [("" if v else "not ") + show(c) for c, v in used])
+
+
+def prove_upper_bound_all_defs(prog, fn, site, operand, bound_term_of):
+    """Is `operand <= bound` at block `site`, where the operand may be a local with several
+    definitions (an if/else result)?  Each definition is judged with the comparisons dominating its
+    own block plus those dominating the site.  bound_term_of(exprs) builds the bound term."""
+    pr = Prover(prog, fn)
+    body = fn.body
+    bound = bound_term_of(pr.ex)
+    p = mir.op_place(operand)
+    from .sympath import show
+    if p is None or p[1]:
+        t = pr.ex.of_operand(operand)
+        cases = [(site, t)]
+    else:
+        l = p[0]
+        # follow copies to the defining local
+        seen = set()
+        while True:
+            d = body.single_def(l)
+            if d is None or d[1] == "T" or l in seen:
+                break
+            seen.add(l)
+            r = d[2]["r"]
+            if r["k"] == "use" and mir.op_place(r["o"]) is not None and not mir.op_place(r["o"])[1]:
+                l = mir.op_place(r["o"])[0]
+            else:
+                break
+        ds = [x for x in body.defs().get(l, []) if not body.is_cleanup(x[0])]
+        if len(ds) <= 1:
+            cases = [(site, pr.ex.of_local(l))]
+        else:
+            cases = []
+            for b, i, st in ds:
+                if i == "T":
+                    e = pr.ex.of_call(l, st, 0)
+                else:
+                    e = pr.ex.of_rvalue(l, st["r"], 0)
+                cases.append((b, e))
+    why = []
+    for blk, e in cases:
+        if lin(e) is None or lin(bound) is None:
+            return False, "term outside the fragment: %s" % show(e)
+        goal = mk_not(mk_lt(bound, e))       # e <= bound
+        if goal[0] == "c":
+            if not goal[1]:
+                return False, "%s <= %s is false" % (show(e), show(bound))
+            why.append("%s <= %s trivially" % (show(e), show(bound)))
+            continue
+        ok, used = pr.prove(blk, goal, True)
+        if not ok and blk != site:
+            ok2, used2 = pr.prove(site, goal, True)
+            ok, used = ok2, used + used2
+        if not ok:
+            return False, "%s <= %s does not follow from %s" % (
+                show(e), show(bound), [("" if v else "not ") + show(c) for c, v in used])
+        why.append("%s <= %s" % (show(e), show(bound)))
+    return True, "; ".join(why)
